@@ -761,18 +761,27 @@ class C03(Property):
     PID = 'C03'
     QUICK_BUDGET_S = 40
     THOROUGH_BUDGET_S = 800
-    RULE = ('a case = cache class, max_size (1-3), on_miss, initial content, 2-3 thread programs of 1-3 public-API operations '
-            'each (20 kinds: item get/set/del, get, pop, popitem, setdefault, clear, update from pairs / a mapping / another '
-            'cache, |=, ==, !=, copy, copy observed through dict order + class + capacity + eviction order, len / in / keys), '
-            'and a schedule = every choice of the opcode-level scheduler: a single (thorough: double) pre-emption placed at a '
-            'given instruction, a focus schedule (victim thread pre-empted at its k-th instruction INSIDE a given method, the '
-            'other threads then run as far as they get), or a seeded sticky random walk. Families: 19 fixed conflict programs '
-            'x placements, every public method of the translator table as focus victim against evicting / deleting / clearing '
-            'adversaries, random programs. Non-trivial = at least one pre-emption happened while some thread was inside a '
-            'cache operation (a thread blocked on the lock or was switched out mid-operation); distinct = distinct '
-            '(programs, realised schedule).')
-    ASSUMPTIONS = ['CPython pre-empts threads only between bytecode instructions (GIL); C-level dict '
-                   'operations are atomic', 'threading.RLock is a correct re-entrant lock (replaced by a '
+    RULE = ('a case = cache class, max_size (1-3), on_miss, initial content, how the integer keys / values of the model are '
+            'represented in the real run (ints; strings; key objects / str subclasses with Python-level __hash__ and __eq__; '
+            'value objects with Python-level __eq__), 2-3 thread programs of 1-3 public-API operations each (24 kinds: item '
+            'get/set/del, get, pop, popitem, setdefault, clear, update from pairs / a mapping / another cache / keyword '
+            'arguments / pairs or a mapping plus keyword arguments, |=, == and != against a dict or another cache, copy, copy '
+            'observed through dict order + class + capacity + eviction order, len / in / keys), and a schedule = every choice '
+            'of the scheduler, whose scheduling points are the bytecode boundaries inside cacheutils AND the Python-level '
+            '__hash__ / __eq__ callbacks C code makes under a method of the shared cache: a single (thorough: double) '
+            'pre-emption placed at a given point, a focus schedule (victim thread pre-empted at its k-th point INSIDE a given '
+            'method, the other threads then run as far as they get), or a seeded sticky random walk. Families, in this order: '
+            '10 adversarial programs (keyword-form update against a writer of the same keys / a reader of several; == and != '
+            'against a mix of the contents before and after a multi-key writer, over values / keys with Python-level __eq__; '
+            'object keys under item operations) x every point inside the victim method; 19 fixed conflict programs x '
+            'placements; every public method of the translator table in its call forms as focus victim against evicting / '
+            'deleting / clearing / same-key-writing adversaries; random programs. Non-trivial = at least one pre-emption '
+            'happened while some thread was inside a cache operation (a thread blocked on the lock or was switched out '
+            'mid-operation); distinct = distinct (programs, representation, realised schedule).')
+    ASSUMPTIONS = ['CPython pre-empts threads only between bytecode instructions (GIL); a C-level dict operation is atomic '
+                   'EXCEPT where it calls back into Python-level code of keys / values (__hash__, __eq__) - those callbacks '
+                   'are scheduling points of the harness and separate steps of the Lean model (Callbacks.lean)',
+                   'threading.RLock is a correct re-entrant lock (replaced by a '
                    'scheduler-aware equivalent in the harness)', 'free-threaded builds are out of scope']
     EXTRA_TRUSTED = ['bv/sched.py opcode-level scheduler + lock-set monitor', 'C02 Lean model (the atomic step '
                      'function the linearised run is compared with)']
